@@ -88,6 +88,52 @@ Proof. split; [exact cb_wire_ok|intros i H; exact H]. Qed.
 Lemma keeps_id_id : keeps id_wire id_wire.
 Proof. split; [exact id_wire_ok|intros i H; exact H]. Qed.
 
+(* cbor-shaped source AND target: the tree holds uint64 for non-negative integers, nil for the zero time,
+   microsecond times; written again and read by the same driver *)
+Lemma cb_wn_plain : forall i, plainb i = true -> plainb (cb_wn i) = true.
+Proof.
+  induction i using item_ind'; cbn [cb_wn plainb]; intro Hp; try reflexivity; try discriminate.
+  - destruct (0 <=? z)%Z; reflexivity.
+  - cbn [plainb]. rewrite forallb_forall in *. intros x Hx. apply in_map_iff in Hx. destruct Hx as [y [<- Hy]].
+    rewrite Forall_forall in H. exact (H y Hy (Hp y Hy)).
+  - cbn [plainb]. rewrite forallb_forall in *. intros x Hx. apply in_map_iff in Hx. destruct Hx as [y [<- Hy]].
+    rewrite Forall_forall in H. specialize (Hp y Hy). apply andb_true_iff in Hp. destruct Hp as [H1 H2].
+    destruct (H y Hy) as [G1 G2]. cbn [fst snd]. rewrite (G1 H1), (G2 H2). reflexivity.
+  - destruct (is_time_zero s n); [reflexivity|]. destruct (round_us s n). reflexivity.
+Qed.
+
+Lemma keeps_cb_cb : keeps cb_wire cb_wire.
+Proof.
+  split; [|exact cb_wn_plain].
+  assert (Hs : scalar_ok (compose_wire cb_wire cb_wire) (fun i => cb_wn (cb_wn i))).
+  { constructor; intros; simpl; try (split; reflexivity); try reflexivity.
+    destruct (0 <=? z)%Z eqn:E; simpl; [|rewrite E; simpl; split; reflexivity].
+    apply Z.leb_le in E. split; [reflexivity|].
+    assert (Hlt : (Z.to_N z <? 2 ^ 63)%N = true). { apply N.ltb_lt. change (2 ^ 63)%N with (Z.to_N (2 ^ 63)). apply Z2N.inj_lt; lia. }
+    change (N.pos (2 ^ 63)) with (2 ^ 63)%N. rewrite Hlt. rewrite Z2N.id by lia. reflexivity. }
+  constructor; try exact Hs; intros; simpl; try reflexivity; try (split; reflexivity).
+  all: try (rewrite map_map; reflexivity).
+  destruct (is_time_zero s n) eqn:E; cbn [cb_wn item_is_nil].
+  - unfold is_time_zero in E. apply andb_true_iff in E. destruct E as [E1 E2].
+    apply Z.eqb_eq in E1. apply N.eqb_eq in E2. subst. vm_compute. reflexivity.
+  - destruct (round_us s n) as [s1 n1] eqn:R. cbn [fst snd].
+    destruct (is_time_zero s1 n1) eqn:E'; cbn [item_is_nil].
+    + unfold is_time_zero in E'. apply andb_true_iff in E'. destruct E' as [E1 E2].
+      apply Z.eqb_eq in E1. apply N.eqb_eq in E2. subst. vm_compute. reflexivity.
+    + destruct (round_us s1 n1). reflexivity.
+Qed.
+
+Lemma cbwire_same : forall (O O' : gopts) (pi : order) (t : ty) (v : gv),
+  order_ok pi -> wt t v = true -> supported t = true ->
+  (Z.of_nat (depth (to_item O pi v)) < maxdepth O)%Z ->
+  of_item (compose_wire cb_wire cb_wire) O 0 t (cb_wn (reenc O' (cb_wn (to_item O pi v))))
+    = Ok (norm (compose_wire cb_wire cb_wire) O (arrange O pi v))
+  /\ veq (norm (compose_wire cb_wire cb_wire) O (arrange O pi v)) (norm (compose_wire cb_wire cb_wire) O v).
+Proof.
+  intros O O' pi t v Hpi Hwt Hs Hd.
+  exact (same_generic cb_wire cb_wire O O' pi t v keeps_cb_cb Hpi Hwt Hs (cb_leaves_ok _) Hd).
+Qed.
+
 (* ---- numbers: the integer a leaf denotes survives schema-less decoding ---- *)
 Section Nums.
   Lemma nums_cbor : forall (O : Cbor.eopts) (D : Cbor.dopts) (i : item) (z : Z),
